@@ -4,6 +4,7 @@
 From Coq Require Import ZArith Lia Bool Field List.
 From V Require Import Base.Loops Base.Arr Base.FieldSig Base.Tactics.
 From V Require Import Gen.CoreBand Gen.CoreGS Model.FIT Proofs.BandSums Proofs.BandLDL.
+Import ListNotations.
 Local Open Scope Z_scope.
 
 (* ------------------------------------------------------------------ *)
@@ -70,3 +71,270 @@ Section BTA.
     reflexivity.
   Qed.
 End BTA.
+
+From V Require Import Proofs.GSBlock.
+
+Section GSLineX.
+  Context {F : Type} {O : FOps F}.
+  Hypothesis Fth : field_theory F0 F1 Fadd Fmul Fsub Fopp Fdiv Finv (@eq F).
+  Hypothesis two_nz : (1 + 1)%F <> 0%F.
+  Add Field Fgsx : Fth.
+
+  Variables (ex ey ez sx sy sz eta_x eta_y eta_z zeta : Z -> Z -> Z -> F).
+  Variables (hx hy hz : Z -> F).
+  Hypothesis hx_nz : forall i, hx i <> 0%F.
+  Hypothesis hy_nz : forall i, hy i <> 0%F.
+  Hypothesis hz_nz : forall i, hz i <> 0%F.
+  Variables (nu lhx nx lhy ny lhz nz : Z).
+  Variables (iy iz : Z).       (* the line *)
+
+  Definition St4 : Type := ((Z -> F) * (Z -> F) * (Z -> F) * (Z -> F))%type.
+
+  (* the straight-line part of one step of the ixh loop, block a = ixm = ixh-1 *)
+  Definition gsx_blk (a : Z) (st : St4) :=
+    gauss_seidel_x_L4_call1 ex ey ez sx sy sz eta_x eta_y eta_z zeta hx hy hz nu lhx nx lhy ny lhz nz
+      (kof hx) (kof hy) (kof hz) 0 0 0 0 iz (iz-1) (iz+1) 0 iy (iy-1) (iy+1) (a+1) st.
+  Definition gsx_L4 (a : Z) (st : St4) : St4 :=
+    gauss_seidel_x_L4 ex ey ez sx sy sz eta_x eta_y eta_z zeta hx hy hz nu lhx nx lhy ny lhz nz
+      (kof hx) (kof hy) (kof hz) 0 0 0 0 iz (iz-1) (iz+1) 0 iy (iy-1) (iy+1) (a+1) st.
+
+  Definition blkM (r : (Z -> F) * (Z -> F) * (Z -> F) * (Z -> F) * (Z -> F)) : Z -> F := snd (fst (fst r)).
+  Definition blkL (r : (Z -> F) * (Z -> F) * (Z -> F) * (Z -> F) * (Z -> F)) : Z -> F := snd (fst r).
+  Definition blkR (r : (Z -> F) * (Z -> F) * (Z -> F) * (Z -> F) * (Z -> F)) : Z -> F := snd r.
+  Definition blkA (r : (Z -> F) * (Z -> F) * (Z -> F) * (Z -> F) * (Z -> F)) : Z -> F := fst (fst (fst (fst r))).
+  Definition blkB (r : (Z -> F) * (Z -> F) * (Z -> F) * (Z -> F) * (Z -> F)) : Z -> F := snd (fst (fst (fst r))).
+
+  Lemma gsx_L4_step a st :
+    gsx_L4 a st =
+    let r := gsx_blk a st in
+    let t := blocks_to_amat (blkA r) (blkB r) (blkM r) (blkL r) (blkR r) (a + 1 - 1) nx in
+    (blkM r, blkL r, fst t, snd t).
+  Proof.
+    cbv delta [gsx_L4 gauss_seidel_x_L4 gsx_blk gauss_seidel_x_L4_call1 blkM blkL blkR blkA blkB].
+    cbv beta. reflexivity.
+  Qed.
+
+  Lemma gsx_blk_AB a st : blkA (gsx_blk a st) = snd (fst st) /\ blkB (gsx_blk a st) = snd st.
+  Proof.
+    cbv delta [gsx_blk gauss_seidel_x_L4_call1 blkA blkB]. cbv beta. split; reflexivity.
+  Qed.
+  (* ---- canonical blocks: the step started from zeroed middle / left ------ *)
+  Definition st0 : St4 := (fill1 0%F, fill1 0%F, fill1 0%F, fill1 0%F).
+  Definition cM (a idx : Z) : F := blkM (gsx_blk a st0) idx.
+  Definition cL (a idx : Z) : F := blkL (gsx_blk a st0) idx.
+  Definition cR (a k : Z) : F := blkR (gsx_blk a st0) k.
+
+  (* entries of middle / left that the step never sets but blocks_to_amat reads *)
+  Definition ZeroML (m l : Z -> F) : Prop :=
+    m 7 = 0%F /\ m 19 = 0%F /\
+    l 11 = 0%F /\ l 16 = 0%F /\ l 17 = 0%F /\ l 21 = 0%F /\ l 22 = 0%F /\ l 23 = 0%F.
+
+  (* symbolic evaluation of the update chains of the block at literal indices;
+     the kernel re-checks the step with the VM (default conversion is very slow
+     on the long let-chain) *)
+  Ltac blk_eval :=
+    match goal with
+    | |- ?G =>
+        let G' := eval cbv beta iota zeta delta
+                    [cM cL cR st0 blkM blkL blkR gsx_blk gauss_seidel_x_L4_call1
+                     upd1 upd1f upd3f fill1 arr_of_list nth Z.to_nat Pos.to_nat Pos.iter_op
+                     Nat.add Z.eqb Pos.eqb Z.ltb Z.compare Pos.compare
+                     Pos.compare_cont negb fst snd kof] in G in
+        cut G'; [ let H := fresh "H" in intro H; vm_cast_no_check H | ]
+    end.
+
+  Definition usedM : list Z := [0;1;2;3;4;6;7;8;9;12;13;14;18;19;24].
+  Definition usedL : list Z := [5;6;10;11;12;15;16;17;18;20;21;22;23;24].
+
+  Lemma blk_canon_M a m0 l0 a0 b0 idx : ZeroML m0 l0 -> In idx usedM ->
+    blkM (gsx_blk a (m0, l0, a0, b0)) idx = cM a idx.
+  Proof.
+    intros (Z7 & Z19 & _) H. unfold usedM in H. cbn [In] in H.
+    repeat (destruct H as [H|H]; [subst idx; blk_eval; first [reflexivity|assumption]|]).
+    contradiction.
+  Qed.
+
+  Lemma blk_canon_L a m0 l0 a0 b0 idx : ZeroML m0 l0 -> In idx usedL ->
+    blkL (gsx_blk a (m0, l0, a0, b0)) idx = cL a idx.
+  Proof.
+    intros (_ & _ & Z11 & Z16 & Z17 & Z21 & Z22 & Z23) H. unfold usedL in H. cbn [In] in H.
+    repeat (destruct H as [H|H]; [subst idx; blk_eval; first [reflexivity|assumption]|]).
+    contradiction.
+  Qed.
+
+  Lemma blk_canon_R a st : blkR (gsx_blk a st) = cR a.
+  Proof.
+    apply eq_trans with (y := blkR (gsx_blk a st)); [reflexivity|].
+    cbv delta [cR blkR gsx_blk gauss_seidel_x_L4_call1]. cbv beta. reflexivity.
+  Qed.
+
+  Lemma blk_zero a m0 l0 a0 b0 : ZeroML m0 l0 ->
+    ZeroML (blkM (gsx_blk a (m0, l0, a0, b0))) (blkL (gsx_blk a (m0, l0, a0, b0))).
+  Proof.
+    intros (Z7 & Z19 & Z11 & Z16 & Z17 & Z21 & Z22 & Z23). unfold ZeroML.
+    repeat split; blk_eval; assumption.
+  Qed.
+  (* ---- layout of the banded system after the ixh loop -------------------- *)
+  Lemma upd1_eq {A} (a : Z -> A) i v j : j = i -> upd1 a i v j = v.
+  Proof. intros ->. apply upd1_same. Qed.
+
+  Ltac upd_res := repeat first [rewrite upd1_eq by lia | rewrite upd1_other by lia].
+
+  Definition rowok (a r : Z) : Prop := 0 <= r < 5 /\ (a = nx - 1 -> r = 0).
+
+  (* blocks 0 .. t-1 have been entered *)
+  Definition Lay (t : Z) (A b : Z -> F) : Prop :=
+    (forall a r c, 0 <= a < t -> rowok a r -> 0 <= c <= r ->
+       A ((5*a+r) + 5*(5*a+c)) = cM a (r+5*c)) /\
+    (forall a r c, 1 <= a < t -> rowok a r -> 1 <= c < 5 -> r <= c ->
+       A ((5*a+r) + 5*(5*(a-1)+c)) = cL a (r+5*c)) /\
+    (forall a, 1 <= a -> A (5*a + 5*(5*(a-1))) = 0%F) /\
+    (forall a r, 0 <= a < t -> rowok a r -> b (5*a+r) = cR a r).
+
+  Definition Inv (t : Z) (st : St4) : Prop :=
+    ZeroML (fst (fst (fst st))) (snd (fst (fst st))) /\ Lay t (snd (fst st)) (snd st).
+
+  Lemma r_cases r : 0 <= r < 5 -> r = 0 \/ r = 1 \/ r = 2 \/ r = 3 \/ r = 4.
+  Proof. lia. Qed.
+
+  Section LayStep.
+    Variables (A b M' L' R' : Z -> F) (a0 : Z).
+    Hypothesis HM : forall idx, In idx usedM -> M' idx = cM a0 idx.
+    Hypothesis HL : forall idx, In idx usedL -> L' idx = cL a0 idx.
+    Hypothesis HR : forall k, R' k = cR a0 k.
+    Hypothesis Hnx : 2 <= nx.
+    Hypothesis HLay : Lay a0 A b.
+
+    Ltac inM := unfold usedM; cbn [In]; lia.
+    Ltac inL := unfold usedL; cbn [In]; lia.
+
+    Lemma lay_first : a0 = 0 -> Lay (a0 + 1) (bta_first_A A M') (bta_first_b b R').
+    Proof.
+      intros E0. destruct HLay as (H1 & H2 & H3 & H4).
+      unfold Lay. repeat split.
+      - intros a r c Ha [Hr Hr'] Hc. assert (a = a0) by lia. subst a. subst a0.
+        cbv [bta_first_A].
+        destruct (r_cases r Hr) as [E|[E|[E|[E|E]]]]; subst r;
+          (assert (C : c = 0 \/ c = 1 \/ c = 2 \/ c = 3 \/ c = 4) by lia;
+           destruct C as [E|[E|[E|[E|E]]]]; subst c; try lia);
+          upd_res; apply HM; inM.
+      - intros a r c Ha. lia.
+      - intros a Ha. cbv [bta_first_A]. upd_res. apply H3. lia.
+      - intros a r Ha [Hr Hr']. assert (a = a0) by lia. subst a. subst a0.
+        cbv [bta_first_b].
+        destruct (r_cases r Hr) as [E|[E|[E|[E|E]]]]; subst r; upd_res; apply HR.
+    Qed.
+    Ltac c_cases c := 
+      let C := fresh "C" in let E := fresh "E" in
+      assert (C : c = 0 \/ c = 1 \/ c = 2 \/ c = 3 \/ c = 4) by lia;
+      destruct C as [E|[E|[E|[E|E]]]]; subst c; try lia.
+
+    Lemma lay_normal : 1 <= a0 <= nx - 2 ->
+      Lay (a0 + 1) (bta_norm_A A M' L' a0) (bta_norm_b b R' a0).
+    Proof.
+      intros E0. destruct HLay as (H1 & H2 & H3 & H4).
+      unfold Lay. repeat split.
+      - intros a r c Ha [Hr Hr'] Hc. cbv [bta_norm_A].
+        destruct (Z.eq_dec a a0) as [->|Hne].
+        + c_cases r; c_cases c; upd_res; apply HM; inM.
+        + upd_res. apply H1; [lia|split; assumption|lia].
+      - intros a r c Ha [Hr Hr'] Hc Hrc. cbv [bta_norm_A].
+        destruct (Z.eq_dec a a0) as [->|Hne].
+        + c_cases r; c_cases c; upd_res; apply HL; inL.
+        + upd_res. apply H2; [lia|split; assumption|lia|lia].
+      - intros a Ha. cbv [bta_norm_A]. upd_res. apply H3. lia.
+      - intros a r Ha [Hr Hr']. cbv [bta_norm_b].
+        destruct (Z.eq_dec a a0) as [->|Hne].
+        + c_cases r; upd_res; apply HR.
+        + upd_res. apply H4; [lia|split; assumption].
+    Qed.
+
+    Lemma lay_last : 1 <= a0 -> a0 = nx - 1 ->
+      Lay (a0 + 1) (bta_last_A A M' L' a0) (bta_last_b b R' a0).
+    Proof.
+      intros E0 E1. destruct HLay as (H1 & H2 & H3 & H4).
+      unfold Lay. repeat split.
+      - intros a r c Ha [Hr Hr'] Hc. cbv [bta_last_A].
+        destruct (Z.eq_dec a a0) as [->|Hne].
+        + assert (r = 0) by (apply Hr'; exact E1). subst r. assert (c = 0) by lia. subst c.
+          upd_res. apply HM; inM.
+        + upd_res. apply H1; [lia|split; assumption|lia].
+      - intros a r c Ha [Hr Hr'] Hc Hrc. cbv [bta_last_A].
+        destruct (Z.eq_dec a a0) as [->|Hne].
+        + assert (r = 0) by (apply Hr'; exact E1). subst r.
+          c_cases c; upd_res; apply HL; inL.
+        + upd_res. apply H2; [lia|split; assumption|lia|lia].
+      - intros a Ha. cbv [bta_last_A]. upd_res. apply H3. lia.
+      - intros a r Ha [Hr Hr']. cbv [bta_last_b].
+        destruct (Z.eq_dec a a0) as [->|Hne].
+        + assert (r = 0) by (apply Hr'; exact E1). subst r. upd_res. apply HR.
+        + upd_res. apply H4; [lia|split; assumption].
+    Qed.
+  End LayStep.
+  Lemma Inv_step a0 st : 2 <= nx -> 0 <= a0 < nx -> Inv a0 st -> Inv (a0 + 1) (gsx_L4 a0 st).
+  Proof.
+    intros Hnx Ha [HZ HLay]. destruct st as [[[m l] A] b]. cbn [fst snd] in HZ, HLay.
+    rewrite gsx_L4_step. cbv zeta.
+    destruct (gsx_blk_AB a0 (m, l, A, b)) as [EA EB]. rewrite EA, EB. cbn [fst snd].
+    replace (a0 + 1 - 1) with a0 by lia.
+    pose proof (fun idx => blk_canon_M a0 m l A b idx HZ) as HM.
+    pose proof (fun idx => blk_canon_L a0 m l A b idx HZ) as HL.
+    assert (HR : forall k, blkR (gsx_blk a0 (m, l, A, b)) k = cR a0 k)
+      by (intros k; now rewrite blk_canon_R).
+    pose proof (blk_zero a0 m l A b HZ) as HZ'.
+    set (M' := blkM _) in *. set (L' := blkL _) in *. set (R' := blkR _) in *.
+    clearbody M' L' R'.
+    unfold Inv.
+    destruct (Z.eq_dec a0 0) as [E0|N0].
+    - subst a0. rewrite blocks_to_amat_first. cbn [fst snd]. split; [exact HZ'|].
+      apply lay_first; solve [assumption|lia|reflexivity].
+    - destruct (Z.eq_dec a0 (nx - 1)) as [E1|N1].
+      + rewrite blocks_to_amat_last by lia. cbn [fst snd]. split; [exact HZ'|].
+        apply lay_last; solve [assumption|lia].
+      + rewrite blocks_to_amat_normal by lia. cbn [fst snd]. split; [exact HZ'|].
+        apply lay_normal; solve [assumption|lia].
+  Qed.
+
+  (* the ixh loop of one line, and the system it hands to the solver *)
+  Definition gsx_loop : St4 := Zfold 1 (nx + 1) (fun ixh st => gsx_L4 (ixh - 1) st) st0.
+  Definition gsx_sys : (Z -> F) * (Z -> F) := (snd (fst gsx_loop), snd gsx_loop).
+
+  Theorem gsx_system_layout : 2 <= nx -> Lay nx (fst gsx_sys) (snd gsx_sys).
+  Proof.
+    intros Hnx. unfold gsx_sys, gsx_loop. cbn [fst snd].
+    assert (G : Inv (nx + 1 - 1) (Zfold 1 (nx + 1) (fun ixh st => gsx_L4 (ixh - 1) st) st0)).
+    { apply (Zfold_ind (fun t st => Inv (t - 1) st)); [lia| |].
+      - unfold Inv, st0, ZeroML, Lay, fill1. cbn [fst snd].
+        repeat split; intros; try reflexivity; lia.
+      - intros t st Ht Hi. replace (t + 1 - 1) with (t - 1 + 1) by lia.
+        apply Inv_step; [exact Hnx|lia|exact Hi]. }
+    replace (nx + 1 - 1) with nx in G by lia. exact (proj2 G).
+  Qed.
+
+  (* tie to the generated call-site definition: the arguments handed to [solve] *)
+  Lemma L4_as_blk iback nr it izh iyh ixh st :
+    gauss_seidel_x_L4 ex ey ez sx sy sz eta_x eta_y eta_z zeta hx hy hz nu lhx nx lhy ny lhz nz
+      (kof hx) (kof hy) (kof hz) iback nr it izh iz (iz-1) (iz+1) iyh iy (iy-1) (iy+1) ixh st
+    = gsx_L4 (ixh - 1) st.
+  Proof.
+    unfold gsx_L4. replace (ixh - 1 + 1) with ixh by lia.
+    cbv delta [gauss_seidel_x_L4]. cbv beta. reflexivity.
+  Qed.
+
+  Definition node (iback n ih : Z) : Z := if negb (iback =? 0) then n - ih else ih.
+
+  Lemma gsx_sys_is_call1 iback nr it izh iyh (st7 : (Z -> F) * (Z -> F) * (Z -> F) * (Z -> F) *
+        (Z -> Z -> Z -> F) * (Z -> Z -> Z -> F) * (Z -> Z -> Z -> F)) :
+    node iback ny iyh = iy ->
+    snd (fst (fst st7)) = ex -> snd (fst st7) = ey -> snd st7 = ez ->
+    gauss_seidel_x_L3_call1 sx sy sz eta_x eta_y eta_z zeta hx hy hz nu lhx nx lhy ny lhz nz
+      (kof hx) (kof hy) (kof hz) iback nr it izh iz (iz-1) (iz+1) iyh st7 = gsx_sys.
+  Proof.
+    intros Hn Hx Hy Hz.
+    cbv delta [gauss_seidel_x_L3_call1]. cbv beta. cbv zeta.
+    change (if negb (iback =? 0) then ny - iyh else iyh) with (node iback ny iyh).
+    rewrite Hn, Hx, Hy, Hz. unfold gsx_sys, gsx_loop.
+    rewrite (Zfold_ext 1 (nx + 1) _ (fun ixh st => gsx_L4 (ixh - 1) st)); [reflexivity|].
+    intros i s _. apply L4_as_blk.
+  Qed.
+End GSLineX.
